@@ -20,6 +20,7 @@ type lxRule struct {
 	name string // token name; "" for @frag
 	tree lexTree
 	acts []lxAct
+	ext  bool // an @external declaration: a terminal without a rule
 }
 
 type lxMode struct {
@@ -39,6 +40,10 @@ func (s lxSpec) text() string {
 	sb.WriteString("@lexer\n")
 	writeRule := func(r lxRule, indent string) {
 		sb.WriteString(indent)
+		if r.ext {
+			fmt.Fprintf(&sb, "@external %s\n", r.name)
+			return
+		}
 		if r.name != "" {
 			fmt.Fprintf(&sb, "%s = %s", r.name, r.tree.text)
 		} else {
@@ -71,7 +76,14 @@ func (s lxSpec) text() string {
 			sb.WriteString("}\n")
 		}
 	}
-	first := s.tokenNames()[0]
+	first := ""
+	for _, m := range s.modes {
+		for _, r := range m.rules {
+			if first == "" && r.name != "" && !r.ext {
+				first = r.name
+			}
+		}
+	}
 	fmt.Fprintf(&sb, "@parser\n@start s = %s\n", first)
 	return sb.String()
 }
@@ -287,7 +299,8 @@ func lexFixtures() []lxSpec {
 	a, b, c := lit("a"), lit("b"), lit("c")
 	ab := class("ab", []rng{{'a', 'b'}}, false)
 	abc := []string{"a", "b", "c", "x"}
-	L := func(name string, t lexTree, acts ...lxAct) lxRule { return lxRule{name, t, acts} }
+	L := func(name string, t lexTree, acts ...lxAct) lxRule { return lxRule{name: name, tree: t, acts: acts} }
+	X := func(name string) lxRule { return lxRule{name: name, tree: lexTree{text: "", r: rNone}, ext: true} }
 	push := func(m string) lxAct { return lxAct{"push", m} }
 	pop := lxAct{"pop", ""}
 	emit := func(t string) lxAct { return lxAct{"emit", t} }
@@ -329,6 +342,11 @@ func lexFixtures() []lxSpec {
 		{name: "default-reentry", alpha: abc, maxIn: 5, modes: []lxMode{
 			{"", []lxRule{L("A", a, push("M")), L("X", lit("x"))}},
 			{"M", []lxRule{L("B", b, push("$default")), L("C", c, pop)}},
+		}},
+		// @external names between tokens, at top level and inside a mode: numbering follows the declarations
+		{name: "externals-interleaved", alpha: abc, maxIn: 4, modes: []lxMode{
+			{"", []lxRule{X("INDENT"), L("A", a, push("M")), X("DEDENT"), L("B", b)}},
+			{"M", []lxRule{L("C", c, pop), X("INNER"), L("XX", lit("x"))}},
 		}},
 		// a rule that matches the empty string (accepted by the generator)
 		{name: "nullable-rule", alpha: []string{"a", "b"}, maxIn: 3, modes: []lxMode{{"", []lxRule{
